@@ -271,6 +271,18 @@ def make_case(rc):
         fail = pipeline_agrees(f)
     if fail is None and sig[0] == 'parsed':
         fail = operands_emitted(f)
+    if fail is None and rc.get('parts'):
+        # a formula that contains an ill-formed part is ill-formed: when one of its parts, written as a formula of its own, is rejected by the
+        # pipeline, so must be the whole
+        def rejected(g):
+            try:
+                I.translate([('S', {'A1': 1, 'B2': 2, 'H9': g})], entry=I.Cell(0, 7, 8))
+                return False
+            except I.X.E2PyclException:
+                return True
+        bad = [g for g in rc['parts'] if rejected(g)]
+        if bad and not rejected(f):
+            fail = 'the formula is accepted although its part %r, written as a formula of its own, is rejected' % bad[0]
     if fail is None and sig[0] == 'parsed':
         fail = lexer_cover(f)
     if fail is None and rc.get('nl_of'):
@@ -309,6 +321,13 @@ def run(R, tier):
                                                              '=SUM()', '=SUM(A1;;A2)', '=MAX', '=TODAY(', '=1+SUM(A1:A2', '=FOO(1)', '=A1+B1\n+A2', '=SUM(A1,B1)\n*B2',
                                                              '="ab"&"cd"', '="ab" "cd"', '="ab"="cd"', '="ab";"cd"', '="ab"&A1&"cd"']]
     recipes += [x['witness'] for x in C.known_findings()['findings'] if x['property'] == 'C05']
+    for cond in ['TRUE', 'FALSE', 'TRUE()', 'FALSE()', 'A1>0', '1=1']:
+        for a, b in [('1', '2%3'), ('2%(3)', '1'), ('1', 'SUM(A1:B)'), ('A:B2', '7'), ('MAX(1,2)', 'MIN(4%5,6)'), ('1', '2'), ('A1', 'B2*2')]:
+            recipes.append({'formula': '=IF(%s,%s,%s)' % (cond, a, b), 'parts': ['=' + a, '=' + b], 'mutated': True})
+            recipes.append({'formula': '=1+IF(%s,%s,%s)*3' % (cond, a, b), 'parts': ['=' + a, '=' + b], 'mutated': True})
+    for a, b in [('1', '2%3'), ('SUM(A1:B)', '0'), ('A1', '2')]:
+        recipes.append({'formula': '=IFERROR(%s,%s)' % (a, b), 'parts': ['=' + a, '=' + b], 'mutated': True})
+        recipes.append({'formula': '=IFS(TRUE,%s,FALSE,%s)' % (a, b), 'parts': ['=' + a, '=' + b], 'mutated': True})
     for f in BASE:
         for _ in range(per):
             m = mutate(R.rng, f)
